@@ -812,7 +812,15 @@ def r9(ctx, rep):
         if n.get("k") == "if" and any(x.get("k") == "return" and "Err" in show(x.get("e"), maxdepth=4) for x in walk(n["t"])):
             ctxt = A_st.show(n["c"])          # named booleans / a named table of the reserved words are inlined
             if ".contains(" in ctxt and "name" in ctxt:
-                reserved |= set(re.findall(r"\bNS_[A-Z_]+\b", ctxt))
+                # .. and being one of the words is enough for the rejection (no further condition, e.g. on the module the declaration is in:
+                # the inference slots are looked up by name in every module)
+                import boolfn as _bf
+                try:
+                    tbl = _bf.rows(n["c"], A_st, lambda t: True if ".contains(" in t else None)
+                    if all(v for _, v in tbl):
+                        reserved |= set(re.findall(r"\bNS_[A-Z_]+\b", ctxt))
+                except _bf.Unknown:
+                    pass
     conds = {"reserved-names-rejected": {"NS_THIS", "NS_THAT", "NS_PARAM", "NS_SELF", "NS_INFER", "NS_INFER_MODULE"} <= reserved}
     rep.check(conds["reserved-names-rejected"], "reserved-names-rejected", f"declarations named like the resolver's own scopes (`this`, `that`, `_param`, `_self`, `_infer`, `_infer_module`) must be rejected "
               f"in fold_statements (found a rejection for {sorted(reserved)}): `let _infer = 1` otherwise makes later lookups panic", file=st["file"], line=st["l"], fn=st["path"])
@@ -942,6 +950,28 @@ def r10(ctx, rep):
     rep.check(n_sites >= 10, "sites", f"expected >= 10 unwrapped folds, found {n_sites}")
 
 
+def r11(ctx, rep):
+    rep.rule("C12.R11", "the Flattener reaches every expression: the lowerer's `unreachable!(\"transform `Group` / `Window` cannot be lowered\")` holds only if no part of the "
+             "tree (the body of a `loop` function included) is returned as it is", floor=5)
+    import C10
+    syn = ctx.syn
+    fns = [f for f in syn.fns if f["crate"] == "prqlc" and f["file"].endswith("resolver/flatten.rs") and f.get("self_short") == "Flattener" and f["name"].startswith("fold_") and "body" in f]
+    if not fns:
+        raise AnchorMissing("impl PlFold for Flattener")
+    n = C10.fold_audit(ctx, rep, fns, consequence="a `group` / `window` inside it is never flattened and the lowerer panics on it", parts=("arms",))
+    fe = [f for f in fns if f["name"] == "fold_expr"]
+    # the catch-all of fold_expr hands the rest to the default folder
+    ok = False
+    for f in fe:
+        for m in matches_of(f["body"]):
+            last = m["arms"][-1]
+            if last["pat"].get("k") in ("p_ident", "p_wild") and last["pat"].get("sub") is None and any(x.get("k") == "mcall" and x["m"] == "fold_expr_kind" for x in walk(last["body"])):
+                ok = True
+    rep.check(bool(fe) and ok, "catch-all-delegates", "Flattener::fold_expr must pass every expression kind it does not handle itself to `fold_expr_kind` (the default folder, which descends into it)",
+              file=fe[0]["file"] if fe else None, line=fe[0]["l"] if fe else None, fn=fe[0]["path"] if fe else None)
+    rep.check(n >= 4, "sites", f"expected the arms of Flattener::fold_expr over TransformCall and its kinds, found {n} expression-carrying parts")
+
+
 def run(ctx, rep):
-    for r in (r1, r2, r3, r4, r5, r6, r7, r8, r9, r10):
+    for r in (r1, r2, r3, r4, r5, r6, r7, r8, r9, r10, r11):
         rep.guard(r, ctx)
